@@ -576,6 +576,7 @@ func c10Body(t *zsim.Tape, w *zsim.World, d *zsim.Disk, sc *c10Scenario, out *hl
 		`{"SourceCode":"输入甲\n输出甲","VarInput":"= 1"}`,
 		`{"a":1,"b":[1,2]}`,
 		`[1,2,3]`,
+		`null`, ` null `, `true`, `123`, `"text"`, `{}`, `{"VarInput":null,"SourceCode":null}`, `{"SourceCode":5}`, `[null]`,
 		`not json`,
 		``,
 		`{"SourceCode":"抛出异常：“x”！","VarInput":""}`,
